@@ -246,9 +246,10 @@ class CFG:
             return True
         return b not in self.reach([0], blocked_edges=[edge])
 
-    def passes_through(self, mid_blocks, src, dsts):
-        """Every path src -> any of dsts passes through one of mid_blocks."""
-        r = self.reach([src], blocked=mid_blocks)
+    def passes_through(self, mid_blocks, src, dsts, barriers=()):
+        """Every path src -> any of dsts passes through one of mid_blocks (paths are cut at `barriers`, e.g. the
+        head of a per-operation loop, so that a later iteration is not mistaken for this one)."""
+        r = self.reach([src], blocked=set(mid_blocks) | set(barriers))
         return not any(d in r for d in dsts)
 
     def back_edges(self):
